@@ -49,6 +49,9 @@ pub fn pack_read(b: &[u8]) -> Result<Vec<PackEntry>, String> {
 
 #[derive(Debug, Default, Clone)]
 pub struct PackPlan {
+    /// no zero padding after the last body / at the end of the file (files only have to START on a
+    /// 32-byte boundary)
+    pub no_tail_padding: bool,
     pub names_after_bodies: bool,
     pub reverse_bodies: bool,
     pub extra_padding: bool,
@@ -114,12 +117,16 @@ pub fn pack_build(files: &[(String, Vec<u8>)], plan: &PackPlan, rng: &mut Rng) -
             body_off[i] = img.len();
             img.extend(&files[i].1);
         }
-        pad32(img);
+        if !plan.no_tail_padding {
+            pad32(img);
+        }
     };
     if plan.names_after_bodies {
         put_bodies(&mut img, &mut body_off, rng);
         put_names(&mut img, &mut name_off, rng);
-        pad32(&mut img);
+        if !plan.no_tail_padding {
+            pad32(&mut img);
+        }
     } else {
         put_names(&mut img, &mut name_off, rng);
         put_bodies(&mut img, &mut body_off, rng);
@@ -144,6 +151,8 @@ pub struct ArcPlan {
     pub decoy_labels: bool,
     /// Count word and Info table before the file bodies (the last body then ends the data region)
     pub tables_first: bool,
+    /// the Count word does not sit right in front of the Info table but at the very end of the data
+    pub count_far: bool,
     /// error variants
     pub drop_count_label: bool,
     pub drop_info_label: bool,
@@ -205,6 +214,18 @@ pub fn arc_build(files: &[(String, Vec<u8>)], plan: &ArcPlan, rng: &mut Rng) -> 
         a.data.extend(std::iter::repeat(0).take(table_len));
     }
     let data_label_at = body_base + data_label_rel;
+    let count_at = if plan.count_far {
+        // the in-table slot keeps a decoy value; the labelled Count word is appended at the end
+        a.data[count_at..count_at + 4].copy_from_slice(&0xDEAD_0000u32.to_le_bytes());
+        while a.data.len() % 4 != 0 {
+            a.data.push(0);
+        }
+        let at = a.data.len();
+        a.data.extend_from_slice(&[0; 4]);
+        at
+    } else {
+        count_at
+    };
     let final_len = a.data.len();
     a.data[count_at..count_at + 4].copy_from_slice(&(n as u32).to_le_bytes());
     let mut rec_order: Vec<usize> = (0..n).collect();
